@@ -75,6 +75,9 @@ struct Hooks {
   void (*on_schedule)(std::uint64_t id, int where, std::uint64_t key) = nullptr;
   // observation: the injector decided to yield here
   void (*on_inject)(std::uint64_t injected_count) = nullptr;
+  // observation: a random pick was made from a fiber list (where: 0 = run queue, 1 = wait queue): the ids in list
+  // order and the id that was chosen
+  void (*on_pick)(int where, const std::uint64_t* ids, int n, std::uint64_t chosen) = nullptr;
 };
 
 Hooks& GetHooks() noexcept;
